@@ -1,10 +1,13 @@
 package main
 
 import (
+	"context"
 	"fmt"
 	"os"
 	"strings"
 	"time"
+
+	datatransfer "github.com/filecoin-project/go-data-transfer/v2"
 )
 
 // ---------- step constructors ----------
@@ -764,7 +767,36 @@ func runNodePeers(dir string, seed uint64, tier string) {
 			s.run("local-role", append(append([]nStep(nil), setup...), st), nil)
 		}
 	}
-	s.finish(dir, "enumerated: a node with four live channels (both roles, both directions, transfer ids colliding across peers) x sender {each counterparty, stranger, self} x transfer id {each existing id, fresh} x every request kind (8), response kind (9) and restart-existing request; plus SendVoucher / SendVoucherResult / UpdateValidationStatus on every channel and an unknown id", true)
+	// ids across manager lifetimes (C18, monitor only): a burst of opens, a process restart, one more open --
+	// the later manager must start above every id the earlier one issued (same peer: otherwise the open collides
+	// with the persisted channel; other peer: otherwise an id is silently reused)
+	for round := 0; round < 3; round++ {
+		rig := newNodeRig(s.res, 1)
+		rig.register("T1")
+		ctx := context.Background()
+		var maxID uint64
+		burst := 300 + 150*round
+		for i := 0; i < burst; i++ {
+			chid, err := rig.mgr.OpenPushDataChannel(ctx, peerOf(2+i%2), datatransfer.TypedVoucher{Type: "T1", Voucher: nodeOf(3)}, cidOf(1), nodeOf(2))
+			if err != nil {
+				s.res.fail(monitorFailure{Property: "C18", Signature: "burst-open-failed", What: "open failed during a burst: " + err.Error(), Input: fmt.Sprintf("burst of %d opens", burst)})
+				break
+			}
+			if uint64(chid.ID) <= maxID {
+				s.res.fail(monitorFailure{Property: "C18", Signature: "ids-not-increasing", What: "ids of one manager are not strictly increasing", Input: fmt.Sprintf("burst of %d opens", burst)})
+			}
+			maxID = uint64(chid.ID)
+		}
+		rig.restartProcess(true)
+		chid, err := rig.mgr.OpenPushDataChannel(ctx, peerOf(2), datatransfer.TypedVoucher{Type: "T1", Voucher: nodeOf(3)}, cidOf(1), nodeOf(2))
+		if err != nil || uint64(chid.ID) <= maxID {
+			s.res.fail(monitorFailure{Property: "C18", Signature: "later-manager-id-not-above", What: "after a process restart the manager issued an id that is not above the ids of the earlier manager (or the open collided with a persisted channel)",
+				Input: fmt.Sprintf("burst of %d opens, restart, one open", burst), Observed: fmt.Sprintf("id=%d err=%v", uint64(chid.ID), err), Expected: fmt.Sprintf("> %d", maxID)})
+		}
+		_ = rig.mgr.Stop(ctx)
+		s.res.hist("burst-restart-rounds")
+	}
+	s.finish(dir, "enumerated: a node with four live channels (both roles, both directions, transfer ids colliding across peers) x sender {each counterparty, stranger, self} x transfer id {each existing id, fresh} x every request kind (8), response kind (9) and restart-existing request; plus SendVoucher / SendVoucherResult / UpdateValidationStatus on every channel and an unknown id; 3 rounds of a burst of 300-600 opens, process restart, one more open (ids across manager lifetimes)", true)
 }
 
 // ---------- nodeapi (C08, C09, C11, C19): API calls in every role and status, with send failures ----------
